@@ -1,84 +1,37 @@
-"""stand-in for `zlib` inside instrumented code.
-
-Concrete bytes go to the real zlib.  Symbolic payloads use the contract model of
-DESIGN.md 2.2(4): the harness registers, per compressed byte string identity, the
-plain bytes it inflates to (`register(compressed_items, plain)`); anything not
-registered is garbage and raises zlib.error."""
+"""stand-in for `zlib` inside instrumented code: real zlib unless a harness activated the
+contract model (symx.zmodel) for symbolic payloads."""
 import zlib as _z
-from .core import SymBytes, mkbytes, EngineLimit
+from .core import mkbytes
+from .zmodel import Model
 
 error = _z.error
 MAX_WBITS = _z.MAX_WBITS
-_registry = []      # list of (compressed SymBytes/bytes object, plain bytes-like)
+MODEL = Model(mkbytes)
 
 
 def reset():
-    del _registry[:]
-
-
-def register(compressed, plain):
-    _registry.append((compressed, plain))
-
-
-def _lookup(data):
-    for comp, plain in _registry:
-        if comp is data:
-            return plain
-        if len(comp) == len(data) and all(a is b or (type(a) is int and type(b) is int and a == b) for a, b in zip(comp, data)):
-            return plain
-    return None
-
-
-class _Decomp:
-    def __init__(self):
-        self._pending = None
-        self.unused_data = b''
-        self.unconsumed_tail = b''
-        self.eof = False
-
-    def decompress(self, data, max_length=0):
-        if self._pending is None:
-            plain = _lookup(data)
-            if plain is None:
-                if type(data) is SymBytes:
-                    raise error('Error -3 while decompressing data: (symbolic garbage)')
-                raise EngineLimit('sx_zlib: unregistered concrete payload')
-            self._pending = list(plain)
-        if max_length and max_length > 0:
-            out = self._pending[:max_length]
-            self._pending = self._pending[max_length:]
-            self.unconsumed_tail = mkbytes([0]) if self._pending else b''
-        else:
-            out = self._pending
-            self._pending = []
-            self.unconsumed_tail = b''
-        if not self._pending:
-            self.eof = True
-        return mkbytes(out)
-
-    def flush(self, *a):
-        out = self._pending or []
-        self._pending = []
-        return mkbytes(out)
-
-
-_real_mode = [True]
+    MODEL.reset()
+    MODEL.active = False
 
 
 def use_model(flag):
-    _real_mode[0] = not flag
+    MODEL.active = bool(flag)
+
+
+def register(compressed, plain):
+    MODEL.register(compressed, plain)
 
 
 def decompressobj(*a, **kw):
-    if _real_mode[0]:
-        return _z.decompressobj(*a, **kw)
-    return _Decomp()
+    if MODEL.active:
+        return MODEL.decompressobj()
+    return _z.decompressobj(*a, **kw)
 
 
 def decompress(data, *a, **kw):
-    if _real_mode[0]:
-        return _z.decompress(data, *a, **kw)
-    return _Decomp().decompress(data)
+    if MODEL.active:
+        return MODEL.decompressobj().decompress(data)
+    return _z.decompress(data, *a, **kw)
 
 
 compress = _z.compress
